@@ -880,6 +880,162 @@ func runC02(c *Ctx) {
 	checkPrefixBoundedLoops(r, c, p)
 	checkDecodePanics(r, p)
 	checkPrefixTables(r, p, "switch/length-prefix-exhaustive")
+	checkArrayFillBounded(r, p)
+}
+
+// checkArrayFillBounded: a function that indexes one reflect value with an index that ranges over the
+// length of ANOTHER one (`for i := range src.Len() { dst.Index(i).Set(src.Index(i)) }`) panics with
+// "index out of range" as soon as the source is longer. Every call of such an unchecked copier of
+// the decoding packages must hand it a source whose length is the destination's by construction
+// (the slice made from that very array) or sit behind the edge on which the two lengths were
+// found equal - the decoded bytes of an input are as long as the input says.
+func checkArrayFillBounded(r *Reporter, p *Prog) {
+	const rule = "reflect/fill-bounded-by-destination"
+	pk := p.Pkg(pkgSerix)
+	if pk == nil {
+		r.Unresolved(rule, pkgSerix, "package not loaded")
+		return
+	}
+	info := pk.TypesInfo
+	isReflectValue := func(e ast.Expr) bool {
+		return strings.HasSuffix(typeName(info.TypeOf(e)), "reflect.Value")
+	}
+	// the unchecked copiers: (function, index of the destination parameter, index of the source parameter)
+	type copier struct{ dst, src int }
+	copiers := map[*types.Func]copier{}
+	for _, fd := range p.AllFuncDecls(pkgSerix) {
+		if fd.Body == nil || strings.HasSuffix(p.Fset.Position(fd.Pos()).Filename, "_test.go") {
+			continue
+		}
+		params := paramObjs(info, fd)
+		f := newFuncCFGPlain(p, info, fd.Body, funcKey(pkgSerix, fd))
+		for _, l := range f.Loops() {
+			bound := f.LoopBound(l)
+			if !strings.HasPrefix(bound, "count:") || !strings.HasSuffix(bound, ".Len()") {
+				continue
+			}
+			srcName := strings.TrimSuffix(strings.TrimPrefix(bound, "count:"), ".Len()")
+			si, di := -1, -1
+			for i, po := range params {
+				if po != nil && po.Name() == srcName {
+					si = i
+				}
+			}
+			if si < 0 {
+				continue
+			}
+			// a destination parameter indexed inside the loop
+			ast.Inspect(l.Stmt, func(n ast.Node) bool {
+				c, ok := n.(*ast.CallExpr)
+				if !ok || len(c.Args) != 1 {
+					return true
+				}
+				se, ok := ast.Unparen(c.Fun).(*ast.SelectorExpr)
+				if !ok || se.Sel.Name != "Index" || !isReflectValue(se.X) {
+					return true
+				}
+				for i, po := range params {
+					if po != nil && i != si && objOfIdent(info, se.X) == po {
+						di = i
+					}
+				}
+				return true
+			})
+			if di >= 0 {
+				if fn, ok := info.Defs[fd.Name].(*types.Func); ok {
+					copiers[fn] = copier{di, si}
+				}
+			}
+		}
+	}
+	if len(copiers) == 0 {
+		r.Pass(rule, pkgSerix, "-", "no function indexes one reflect value over the length of another")
+		return
+	}
+	nSites := 0
+	for _, fd := range p.AllFuncDecls(pkgSerix) {
+		if fd.Body == nil || strings.HasSuffix(p.Fset.Position(fd.Pos()).Filename, "_test.go") {
+			continue
+		}
+		fkey := funcKey(pkgSerix, fd)
+		var f *FuncCFG
+		ast.Inspect(fd.Body, func(n ast.Node) bool {
+			c, ok := n.(*ast.CallExpr)
+			if !ok {
+				return true
+			}
+			fn := staticCallee(info, c)
+			if fn == nil {
+				return true
+			}
+			cp, isCopier := copiers[fn.Origin()]
+			if !isCopier || cp.dst >= len(c.Args) || cp.src >= len(c.Args) {
+				return true
+			}
+			nSites++
+			if f == nil {
+				f = newFuncCFG(p, info, fd.Body, fkey)
+			}
+			key := fmt.Sprintf("%s(%s, %s) in %s", fn.Name(), exprKey(c.Args[cp.dst]), exprKey(c.Args[cp.src]), fkey)
+			pt, found := f.PointOf(c)
+			if !found {
+				// inside a function literal: judged on the literal's own graph
+				var lit *ast.FuncLit
+				ast.Inspect(fd.Body, func(m ast.Node) bool {
+					if l, isLit := m.(*ast.FuncLit); isLit && l.Pos() <= c.Pos() && c.End() <= l.End() {
+						lit = l
+					}
+					return true
+				})
+				if lit == nil {
+					r.Fail(rule, key, p.posStr(c.Pos()), "cannot locate the call in the function's graph")
+					return true
+				}
+				lf := newFuncCFG(p, info, lit.Body, fkey+"$lit")
+				if pt, found = lf.PointOf(c); !found {
+					r.Fail(rule, key, p.posStr(c.Pos()), "cannot locate the call in the literal's graph")
+					return true
+				}
+				judgeFill(r, rule, key, lf, c, pt, cp.dst, cp.src)
+				return true
+			}
+			judgeFill(r, rule, key, f, c, pt, cp.dst, cp.src)
+			return true
+		})
+	}
+	if nSites == 0 {
+		r.Fail(rule, pkgSerix, "-", "an unchecked copier exists but is never called (vacuous)")
+	}
+}
+
+func judgeFill(r *Reporter, rule, key string, f *FuncCFG, c *ast.CallExpr, pt Point, di, si int) {
+	dst, src := c.Args[di], c.Args[si]
+	dk, sk := f.KeyAt(dst, pt), f.KeyAt(src, pt)
+	// (1) the source is the slice made from the destination array itself
+	if re, rpt := f.ResolveToCall(src, pt); re != nil {
+		if rc, isCall := ast.Unparen(re).(*ast.CallExpr); isCall && len(rc.Args) == 1 && strings.HasSuffix(rawKey(rc.Fun), "sliceFromArray") && f.KeyAt(rc.Args[0], rpt) == dk {
+			r.Pass(rule, key, f.P.posStr(c.Pos()), "the source is sliceFromArray(destination): same length by construction")
+			return
+		}
+	}
+	// (2) behind the edge on which both lengths were found equal
+	rawD, rawS := exprKey(dst), exprKey(src)
+	eq := f.RelEdges(func(rel Rel) bool {
+		if rel.Op != "==" {
+			return false
+		}
+		l, rr := rel.L, rel.R
+		return (l == rawD+".Len()" && rr == rawS+".Len()") || (l == rawS+".Len()" && rr == rawD+".Len()")
+	})
+	if len(eq) > 0 {
+		if w, only := f.OnlyThroughEdges(pt, eq); only {
+			r.Pass(rule, key, f.P.posStr(c.Pos()), "behind the edge on which source and destination have the same length")
+		} else {
+			r.Fail(rule, key, f.P.posStr(c.Pos()), "the copy is reachable without the length comparison between source and destination", w...)
+		}
+		return
+	}
+	r.Fail(rule, key, f.P.posStr(c.Pos()), fmt.Sprintf("the source (%s) is neither the slice made from the destination array (%s) nor compared with its length: an input that decodes to more elements than the array has panics with an index out of range instead of returning an error", sk, dk))
 }
 
 // remaining-length guards: edges on which `K <= len(d.src[d.offset:])` is known.
